@@ -26,6 +26,11 @@ fn check(ctx: &Ctx, st: &mut Stats, c: char, cls: u32, baseline: &str) {
             baseline.to_string()
         }
     };
+    // a rendering that differs as text but denotes the same language is not a violation
+    if out != expected && matches!(crate::oracle::compare(&out, &expected), crate::oracle::Cmp::Equal) {
+        st.count("equivalent_rendering");
+        return;
+    }
     if out != expected {
         let mut case = case_json(&tcs, s);
         case["output"] = json!(out);
@@ -66,6 +71,10 @@ fn context_case(ctx: &Ctx, st: &mut Stats, w: &str, cls: u32) {
     expected.push('$');
     st.decided += 1;
     st.count("context_cases");
+    if whole != expected && matches!(crate::oracle::compare(&whole, &expected), crate::oracle::Cmp::Equal) {
+        st.count("equivalent_rendering");
+        return;
+    }
     if whole != expected {
         let mut case = case_json(&tcs, s);
         case["what"] = json!("context");
